@@ -160,6 +160,31 @@ func propRecover(t *rapid.T) {
 	if !bytes.Equal(q.Bytes(), want.Uncompressed()) {
 		t.Fatalf("RecoverPublicKey(digest=%x, r=%x, s=%x, v=%d) = %x, want %v", digest, r, s, v, q.Bytes(), want)
 	}
+	// the key object is the caller's from now on: other recoveries and verifications (their scratch state, their
+	// result objects) come and go before it is used, and other parts of the API use it too
+	if rapid.Bool().Draw(t, "other-calls-before-use") {
+		od := big.NewInt(int64(rapid.IntRange(1, 1<<30).Draw(t, "other-key")))
+		odg := gen.Bytes(t, 32, 32, "other-digest")
+		or, os, oid, ok := ref.ECDSASignWithNonce(od, big.NewInt(int64(rapid.IntRange(1, 1<<30).Draw(t, "other-nonce"))), odg)
+		if ok {
+			ols, neg := ref.LowS(os)
+			if neg {
+				oid ^= 1
+			}
+			for k := rapid.IntRange(1, 3).Draw(t, "other-calls"); k > 0; k-- {
+				oq, oerr := secec.RecoverPublicKey(odg, lib.Sc(or), lib.Sc(ols), byte(oid))
+				if oerr != nil || !bytes.Equal(oq.Bytes(), ref.BaseMul(od).Uncompressed()) || !oq.VerifyRaw(odg, lib.Sc(or), lib.Sc(ols)) {
+					t.Fatalf("an unrelated recovery / verification (d=%x) after the recovery under test went wrong: %v", od, oerr)
+				}
+			}
+		}
+		if use, msg := lib.UsePublicKeyElsewhere(t, q, want, "q"); msg != "" {
+			t.Fatalf("recovered key %v, use %s: %s", want, use, msg)
+		}
+		if !bytes.Equal(q.Bytes(), want.Uncompressed()) || !bytes.Equal(q.Point().UncompressedBytes(), want.Uncompressed()) {
+			t.Fatalf("the recovered key changed while other recoveries / verifications ran: Bytes() = %x, Point() = %x, want %v", q.Bytes(), q.Point().UncompressedBytes(), want)
+		}
+	}
 	// every returned key verifies the signature
 	if !ref.ECDSAVerify(want, digest, r, s) {
 		t.Fatal("reference: recovered key does not verify (reference model inconsistent)")
